@@ -13,13 +13,18 @@ PROGGEN = os.path.join(VERIF, "proggen")
 HOST = os.path.join(PROGGEN, "host")
 
 
-def build_pg():
-    """Builds the generator / engine M binary (it #[path]-includes /repo/macros/src)."""
-    p = subprocess.run(["cargo", "build", "--release"], cwd=PROGGEN, env=ENV, stdout=subprocess.PIPE, stderr=subprocess.STDOUT, text=True)
+def build_pg(features=()):
+    """Builds the generator / engine M binary (it #[path]-includes /repo/macros/src). The macro
+    crate's own `events` feature (extra generated sections) is the feature of the same name here."""
+    tdir = os.path.join(PROGGEN, "target" + ("-" + "-".join(sorted(features)) if features else ""))
+    cmd = ["cargo", "build", "--release", "--target-dir", tdir]
+    if features:
+        cmd += ["--features", ",".join(features)]
+    p = subprocess.run(cmd, cwd=PROGGEN, env=ENV, stdout=subprocess.PIPE, stderr=subprocess.STDOUT, text=True)
     if p.returncode != 0:
         tail = "\n".join(l for l in p.stdout.splitlines() if not l.startswith("warning"))[-3000:]
         raise Inconclusive("building proggen failed (do the macro sources still have the expected module layout?):\n%s" % tail)
-    return os.path.join(PROGGEN, "target", "release", "pg")
+    return os.path.join(tdir, "release", "pg")
 
 
 def build_gecs(features=()):
